@@ -188,7 +188,7 @@ class C17(Property):
     configs = ('A',)
     bytes_per_case = 96
     technique = 'property-based differential testing against CPython float()/repr()/hex()/% (Hypothesis + exhaustive exponent sweep)'
-    level_text = ('generated-input search: every biased exponent and power of ten enumerated on each run plus ~60k (quick) / 3M (thorough) '
+    level_text = ('generated-input search: every biased exponent and power of ten enumerated on each run plus ~200k (quick) / 3M (thorough) '
                   'random structured doubles and numeric strings, each compared with CPython; finds divergences, does not prove absence')
     level_note = 'trusts CPython 3.11 as the reference for float text conversions and the JSON adapter (bit patterns are passed as hex)'
     rule = ('structured doubles (every biased exponent x {0,1,2^52-1,random mantissa}, 10^k and neighbours, 2^53 edge, '
@@ -200,7 +200,7 @@ class C17(Property):
                    'to_string is required to be a shortest round-tripping rendering with Python\'s shape, not text-identical to repr']
 
     def budget(self, tier):
-        return 60000 if tier == 'quick' else 3000000
+        return 200000 if tier == 'quick' else 3000000
 
     # ---- deterministic part: every exponent, every power of ten
     def explicit_cases(self, ctx):
